@@ -357,6 +357,213 @@ def r5_binify_guards(ctx):
         ctx.check(ok, "binify: row labels come from the mean bins, column labels from the amplitude bins, with the bracket style of `right`", bf, det)
 
 
+# ======================================================================================================================= R6
+def _tol_cmps(values, tolname):
+    """distinct comparison atoms with the tolerance (a value that depends on `tol`) on one side: [(cmp value, other side, tolerance side)]"""
+    out = []
+    for v in values:
+        for nm, a, x in apps(v, "cmp:"):
+            if nm[4:] not in ("Gt", "GtE", "Lt", "LtE") or len(a) != 2 or any(isinstance(k, str) for k in a):
+                continue
+            ta, tb = depends(a[0], tolname), depends(a[1], tolname)
+            if ta == tb:
+                continue
+            d, t = (a[1], a[0]) if ta else (a[0], a[1])
+            if apps(t, "cmp:"):
+                continue        # a quantity derived from the de-duplicated samples (their number, ...), not the tolerance
+            if not any(same(x, o[0]) for o in out):
+                out.append((x, d, t))
+    return out
+
+
+def _strict(cmpv, d, t):
+    """(separates, equality groups with 'below', truth above): the comparison as a predicate of d relative to t"""
+    res = {}
+    for k, x in (("below", Fraction(1, 2)), ("on", 1), ("above", 2)):
+        f = Facts()
+        try:
+            f.num_set(d, x)
+            f.num_set(t, 1)
+        except Unsupported:
+            return None
+        res[k] = truth(cmpv, f)
+    if any(v is None for v in res.values()):
+        return None
+    return res
+
+
+def _all_values(S):
+    vals = [t[0] for t in S.tr.tests]
+    vals += [c[2] for c in S.tr.cells] + [c[1] for c in S.tr.cells]
+    vals += [r[0] for r in S.returns()]
+    for c in S.tr.calls:
+        vals += list(c[1]) + list(c[2].values())
+    return [v for v in vals if v is not None and not is_unknown(v)]
+
+
+def _diff(S, v):
+    return S.E("V[1:] - V[:-1]", V=v)
+
+
+def r6_tolerance_strictness(ctx):
+    """a sample is a new value only if it differs by MORE than the scaled tolerance; with tol = 0 exact repeats must not count"""
+    consts = module_consts(ctx, CYC)
+    table = module_funcs(ctx, CYC)
+    lf = ctx.src.func(LOC, "find_unique")
+    pl = params(lf)
+    Sfu = XSem(ctx, lf, consts=module_consts(ctx, LOC), inline={k: v for k, v in module_funcs(ctx, LOC).items() if k != "find_unique"})
+    fu = Sfu.ret()
+    sites = [("find_unique", lf, Sfu, pl)]
+    variants = []
+    for q in ("findap", "findap#2"):
+        if ctx.src.has_func(CYC, q):
+            fn = ctx.src.func(CYC, q)
+            inl = {k: v for k, v in table.items() if k != "findap"}
+            inl["locate.find_unique"] = lf
+            S0 = XSem(ctx, fn, run=False, consts=consts)
+            pq = params(fn)
+            f = Facts(preds=[lambda v: (False if head(v) == "call:np.all" else None)])
+            for text in (f"{pq[0]}.size", f"len({pq[0]})"):
+                f.num_set(S0.E(text), 1000)
+            S = XSem(ctx, fn, facts=f, consts=consts, inline=inl)
+            loops = bool(S.tr.loops) or any(t[3] == "while" for t in S.tr.tests)
+            variants.append((q, fn, S, pq, loops, S0))
+            sites.append(("findap", fn, S, pq))
+    n = 0
+    for name, fn, S, pp in sites:
+        if len(pp) < 2:
+            raise AnchorError(f"{name}(y, tol)")
+        cm = _tol_cmps(_all_values(S), pp[1])
+        want_t = [S.E(f"abs({pp[1]} * np.max(abs(np.diff({pp[0]}))))"), S.E(f"abs({pp[1]}) * np.max(abs(np.diff({pp[0]})))")]
+        tol_ok = []
+        for cmpv, d, t in cm:
+            n += 1
+            r = _strict(cmpv, d, t)
+            if r is None:
+                ctx.error(f"{name}: tolerance comparison `{short(cmpv, 120)}`", fn)
+                continue
+            ok = r["on"] == r["below"] and r["above"] != r["below"]
+            ctx.check(ok, f"{name}: `{short(S.E('D > T', D=F.sym('|difference|'), T=F.sym('tolerance')) if ok else cmpv, 120)}` - a difference counts only when strictly greater than the tolerance "
+                          "(all peak-picking variants must agree; `>=` would keep exact repeats when tol = 0 and plateaus would then hide reversals)", fn,
+                      None if ok else {"comparison": short(cmpv), "truth for |difference| below / on / above the tolerance": r}, key=None)
+            tol_ok.append(any(same(t, w) for w in want_t))
+        if cm:
+            ok = all(tol_ok)
+            ctx.check(ok, f"{name}: the tolerance is relative to the largest sample-to-sample difference", fn, None if ok else [short(t) for _, _, t in cm])
+    ctx.check(n >= 4, f"tolerance rule bound to {n} comparisons in find_unique and findap", LOC + ":1", nontrivial=False)
+    # find_unique itself: the mask is (True, |diff| > tolerance)
+    u = app(fu, "hcat")
+    ok = u is not None and len(u[1]) == 2 and truth(u[1][0], None) is True
+    if ok:
+        cm = _tol_cmps([u[1][1]], pl[1])
+        ok = len(cm) == 1 and same(cm[0][0], u[1][1]) and same(cm[0][1], Sfu.E(f"abs(np.diff({pl[0]}))"))
+        r = _strict(*cm[0]) if ok else None
+        ok = ok and r is not None and r["above"] is True and r["on"] is False and r["below"] is False
+    ctx.check(ok, "find_unique: the first sample is unique; a later sample is unique exactly when it differs from its predecessor by more than the tolerance", lf,
+              None if ok else short(fu))
+    # ---- the vectorised (numpy) variant of findap
+    vec = [v for v in variants if not v[4]]
+    if len(vec) != 1:
+        ctx.error("findap: the vectorised variant (no loops; de-duplicates through locate.find_unique) was not found", CYC + ":1", [v[0] for v in vec])
+    else:
+        _findap_numpy(ctx, vec[0], fu, pl, consts, table, lf)
+    for q, fn, S, pq, loops, S0 in variants:
+        if loops:
+            arr = None
+            for rv, _, g in S.returns():
+                if sym_of(rv) is not None and sym_of(rv) in {c[0] for c in S.tr.cells}:
+                    arr = sym_of(rv)
+            first = [c for c in (S.cells(arr) if arr else []) if const_of(c[1]) == 0 and truth(c[2], None) is True and not c[4]["guard"] and not c[4]["loops"]]
+            ctx.check(bool(first), "findap (loop variant): the first sample is always selected", fn, nontrivial=False)
+
+
+def _findap_numpy(ctx, variant, fu, pl, consts, table, lf):
+    q, fn, _, pq, _, S0 = variant
+    y = S0.E(pq[0])
+    inl = {k: v for k, v in table.items() if k != "findap"}
+    inl["locate.find_unique"] = lf
+    U = fu.subs({pl[0]: y, pl[1]: S0.E(pq[1])}) if fu is not None and not is_unknown(fu) and not isinstance(fu, tuple) else None
+    res = {}
+    for allu in (True, False):
+        f = Facts(preds=[lambda v, allu=allu: (allu if head(v) == "call:np.all" else None)],
+                  truths=[(S0.E(f"{pq[0]}.size == 1"), False), (S0.E(f"len({pq[0]}) == 1"), False)])
+        res[allu] = XSem(ctx, fn, facts=f, consts=consts, inline=inl)
+    probs = []
+    shape_ok, slope_ok, ret_ok, scatter_ok = True, True, True, True
+    for allu, S in res.items():
+        rv = S.ret()
+        arr = sym_of(rv)
+        if arr is None or S.tr.raises:
+            probs.append(f"all-unique={allu}: returned value {short(rv)}")
+            shape_ok = False
+            continue
+        mask = arr
+        if not allu:
+            cells = S.cells(arr)
+            ok = const_of(S.init(arr)) == 0 and len(cells) == 1 and not cells[0][4]["guard"] and U is not None and same(cells[0][1], U) and sym_of(cells[0][2]) is not None
+            if not ok:
+                scatter_ok = False
+                probs.append(f"expansion to full size: {[(short(c[1], 80), short(c[2], 80)) for c in cells]}")
+                continue
+            mask = sym_of(cells[0][2])
+        cells = S.cells(mask)
+        ini = S.init(mask)
+        inner = [c for c in cells if same(c[1], F.fn("slice", F.const(1), F.const(-1), NONE))]
+        fl = app(ini, "call:np.full") if ini is not None and not is_unknown(ini) else None
+        if fl is not None and len(fl[1]) == 2:
+            ini = fl[1][1]
+        last = [c for c in cells if const_of(c[1]) == -1]
+        ok = ini is not None and truth(ini, None) is True and len(cells) == len(inner) + len(last) and len(inner) == 1 and len(last) == 1 and not inner[0][4]["guard"]
+        Sg = YU = None
+        if ok:
+            e = app(inner[0][2], "cmp:Eq")
+            if e is not None:
+                a, b = e[1]
+                if const_of(a) == 2:
+                    a, b = b, a
+                ab = app(a, "abs")
+                if const_of(b) == 2 and ab is not None:
+                    for _, aa, _ in apps(ab[1][0], "idx"):
+                        if not isinstance(aa[0], str) and same(ab[1][0], _diff(S, aa[0])):
+                            Sg = aa[0]
+            ne = app(last[0][2], "cmp:NotEq")
+            if ne is not None:
+                x1, x2 = app(ne[1][0], "idx"), app(ne[1][1], "idx")
+                if x1 is not None and x2 is not None and same(x1[1][0], x2[1][0]) and {const_of(x1[1][1]), const_of(x2[1][1])} == {-1, -2}:
+                    YU = x1[1][0]
+            ok = Sg is not None and YU is not None
+            if ok:
+                # the end-point store is guarded by "more than two retained samples"
+                g = conj(list(last[0][4]["guard"]))
+                tt = []
+                for nn in (2, 3):
+                    f = Facts()
+                    for v in (S.E("V.size", V=YU), S.E("len(V)", V=YU)):
+                        f.num_set(v, nn)
+                    tt.append(truth(g, f))
+                ok = tt == [False, True]
+        if not ok:
+            shape_ok = False
+            probs.append(f"all-unique={allu}: mask stores {[(short(c[1], 60), short(c[2], 160)) for c in cells]} init {short(ini)}")
+            continue
+        want_yu = y if allu else (S.E("Y[U]", Y=y, U=U) if U is not None else None)
+        if not same(YU, want_yu):
+            ret_ok = False
+            probs.append(f"all-unique={allu}: samples worked on: {short(YU)}")
+        if not same(Sg, S.E("np.sign(V[1:] - V[:-1])", V=YU)):
+            slope_ok = False
+            probs.append({"all-unique": allu, "slope signs": short(Sg), "expected": "sign(diff(retained samples))", "retained samples": short(YU)})
+    if not shape_ok:
+        ctx.error("findap (numpy variant): mask of the retained samples (all True, interior = slope-sign changes, end point = differs from its predecessor)", fn, probs)
+        return
+    ctx.check(ret_ok and scatter_ok, "findap (numpy variant): works on de-duplicated samples; interior reversals are slope-sign changes; the first sample is always kept", fn,
+              None if ret_ok and scatter_ok else probs)
+    ctx.check(slope_ok, "findap (numpy variant): the slope signs whose changes mark the reversals are the signs of the differences between consecutive RETAINED samples - "
+                        "the same sequence the mask and the end-point test index (a slope taken against a dropped sample loses the true turning point)", fn,
+              None if slope_ok else probs)
+    ctx.check(scatter_ok, "findap (numpy variant): removed repeats are never peaks", fn, None if scatter_ok else probs)
+
+
 def _under(v, facts):
     """resolve ite(...) nodes of a value whose condition the facts decide"""
     for _ in range(8):
@@ -372,6 +579,7 @@ def _under(v, facts):
 
 RULES = [
     ("C10-R5", r5_binify_guards, 18),
+    ("C10-R6", r6_tolerance_strictness, 6),
 ]
 LEVEL = "other"
 EXPLANATION = ""
